@@ -38,8 +38,9 @@ FLOORS = {
                                                    "finder.start_not_representative": 800}},
 }
 CASE_TIMEOUT = {"quick": 90, "thorough": 180}
-SIZES = {"quick": 400, "thorough": 8000}
-KINDS = ("relabel", "relabel", "redundant", "repack", "repack", "same", "unrelated", "near", "near")
+SIZES = {"quick": 600, "thorough": 10000}
+KINDS = ("relabel", "relabel", "redundant", "repack", "repack", "same", "unrelated", "near", "near", "onesided",
+         "onesided", "onesided", "onesided")
 
 
 def shard_setup(tier):
@@ -63,7 +64,32 @@ def gen_cases(tier, seed):
             p1["sym"] = True
         if rng.random() < 0.5:
             p1["inferral"] = rng.choice((["minimise"], ["rename"], ["minimise", "rename"], ["merge"]))
-        if kind == "relabel":
+        if kind == "onesided":
+            # the two universes merge classes differently: the symmetry in the pack of one
+            # searcher only, several rules per class (two-step expansions), the same class or
+            # its relabelling on the other side
+            if rng.random() < 0.75:
+                # patterns invariant under the letter swap: C(a..) and C(b..) are one label
+                # with the symmetry and two labels without it
+                tr = str.maketrans("ab", "ba")
+                basis = rng.choice((["aa", "bb"], ["ab", "ba"], ["aaa", "bbb"], ["aab", "bba"], ["aba", "bab"],
+                                    ["abb", "baa"], ["aa", "bb", "abab", "baba"], ["aab", "bba", "aba", "bab"]))
+                extra = set()
+                for _ in range(rng.randint(0, 2)):
+                    q = rng.choice(basis)
+                    q = q + rng.choice("ab") if rng.random() < 0.5 else rng.choice("ab") + q
+                    extra.update((q, q.translate(tr)))
+                c1 = {"prefix": "".join(rng.choice("ab") for _ in range(rng.choice((0, 0, 1, 1, 2)))),
+                      "patterns": sorted(set(basis) | extra), "alphabet": "ab", "just_prefix": False,
+                      "stats": [], "bytes": False, "proper": rng.random() < 0.2, "right": None}
+                if rw.is_empty(c1):
+                    continue
+            p1.update(sym=True, twice=rng.choice(([0], [1], [0, 1], [0, 1], [0, 1])), factory=None)
+            c2 = c12.relabel(c1, rng) if rng.random() < 0.7 else dict(c1)
+            p2 = dict(p1, sym=False)
+            if rng.random() < 0.5:
+                c1, p1, c2, p2 = c2, p2, c1, p1
+        elif kind == "relabel":
             c2, p2 = c12.relabel(c1, rng), dict(p1)
         elif kind == "redundant":
             c2, p2 = c12.add_redundant(c1, rng), dict(p1)
